@@ -186,19 +186,22 @@ class SecNode:
 
         # create and initialize modules
         todos = list(self.srv.module_cfg.items())
+        scanned = set()
         while todos:
             modname, options = todos.pop(0)
             if modname in self.modules:
                 # already created via Attached
-                continue
-            # For Pinata modules: we need to access this in Self.get_module
-            self.srv.module_cfg[modname] = options
-            modobj = self.get_module_instance(modname)  # lazy
-            if modobj is None:
-                self.log.debug('Module %s returned None', modname)
-                continue
-            self.modules[modname] = modobj
-            if isinstance(modobj, Pinata):
+                modobj = self.modules[modname]
+            else:
+                # For Pinata modules: we need to access this in Self.get_module
+                self.srv.module_cfg[modname] = options
+                modobj = self.get_module_instance(modname)  # lazy
+                if modobj is None:
+                    self.log.debug('Module %s returned None', modname)
+                    continue
+                self.modules[modname] = modobj
+            if isinstance(modobj, Pinata) and modname not in scanned:
+                scanned.add(modname)
                 # scan for dynamic devices
                 pinata = self.get_module(modname)
                 pinata_modules = list(pinata.scanModules())
